@@ -29,6 +29,8 @@ def obligations(tier):
     for nm in (("i4", "b4") if q else ("i4", "b4", "u5")):
         obs.append(ch(f"sami_roundtrip_{nm}", "harness.C11_styles", timeout=T, functions=RT, exhaustive=True,
                       bounds=f"all flat balanced sequences of {nm[1]} nodes written by the SAMI writer and read back by the real SAMIParser + SAMIReader (tree builder html.parser): same flags per character, balanced nodes"))
+    obs.append(ch("sami_roundtrip_combo", "harness.C11_styles", timeout=T, functions=RT + ("SAMIWriter._recreate_span", "SAMIReader._translate_style"), exhaustive=True,
+                  bounds="one span carrying each of the 7 combinations of italics / bold / underline, with optional text before / after and a break inside: SAMI write then real SAMIParser + SAMIReader"))
     RD = ("DFXPWriter._recreate_text", "DFXPReader.read", "_translate_p_tag", "_convert_tag_to_node", "_convert_span_to_nodes")
     for nm in (("i4",) if q else ("i4", "i6")):
         obs.append(ch(f"dfxp_roundtrip_{nm}", "harness.C11_styles", timeout=T, functions=RD, exhaustive=True,
